@@ -7,13 +7,23 @@ use crate::rng::Rng;
 use minidump_writer::FailSpotName;
 use serde_json::Value;
 
+fn token(s: &str) -> String {
+    if s.chars().all(|c| c.is_ascii_alphanumeric() || c == '_') {
+        s.to_string()
+    } else {
+        let t: String = s.chars().take(24).map(|c| if c.is_ascii_alphanumeric() || c == '/' || c == '.' { c } else { '_' }).collect();
+        format!("text:{}", t)
+    }
+}
+
 /// variant paths of a soft-error tree: object keys and unit variants (strings directly inside arrays)
 fn paths(v: &Value, prefix: &str, out: &mut Vec<String>) {
     match v {
         Value::Array(a) => {
             for x in a {
                 match x {
-                    Value::String(s) => out.push(format!("{}{}", prefix, s)),
+                    // unit variants are plain identifiers; free text (paths, OS error messages) is reduced to a token
+                    Value::String(s) => out.push(format!("{}{}", prefix, token(s))),
                     _ => paths(x, prefix, out),
                 }
             }
